@@ -6,7 +6,7 @@ model, so the driver can evaluate them on every environment / value the harness 
 
 * `envRT`          : extra facts about the field descriptors of an environment that the round trip relies on
                      (how python_types builds `bb.Attribute(...)` and the validator from one IR type, which
-                     defaults the front end admits, and that a subclass inherits its parents' descriptors).  NOT derivable inside the model: to be checked on
+                     defaults the front end allows, and that a subclass inherits its parents' descriptors).  NOT derivable inside the model: to be checked on
                      real data.  The third clause excludes a genuine defect (see `Props/C04.lean`,
                      `nullable_alias_default_witness`).
 * `valWF`          : shape conditions on a *value* at a type: an instance cannot hold two values for one
